@@ -127,8 +127,11 @@ impl Epoch {
         iers_only: bool,
         provider: L,
     ) -> Option<f64> {
+        // Compare durations, not floating point seconds: a 64-bit float cannot tell the last few hundred nanoseconds
+        // before a leap second from the leap second itself.
+        let tai_duration = self.to_tai_duration();
         for leap_second in provider.rev() {
-            if self.to_tai_duration().to_seconds() >= leap_second.timestamp_tai_s
+            if tai_duration >= leap_second.timestamp_tai_s.seconds()
                 && (!iers_only || leap_second.announced_by_iers)
             {
                 return Some(leap_second.delta_at);
